@@ -92,7 +92,7 @@ func installFEPFlow(n *asNode, w *jWorld, p *modelProver, nc nodeCfg) error {
 	if err != nil {
 		return err
 	}
-	sgn, err := signer.NewSigner(bg, 0, signer.NewMockSignerConfig(verifPrivKey), "verif", logger)
+	sgn, err := signer.NewSigner(bg, 0, signer.NewMockSignerConfig(nc.key()), "verif", logger)
 	if err != nil {
 		return err
 	}
@@ -160,6 +160,10 @@ func fepWalk(ch choose.Chooser, cfg walkCfg) (*walkRes, *modelProver, error) {
 		return nil, nil, fmt.Errorf("startup on an empty state failed: %v", err)
 	}
 	for i := 0; i < cfg.steps; i++ {
+		if cfg.rotate && ch.Int(0, 7, "rotateKeyNow") == 0 {
+			r.trace = append(r.trace, r.rotateKey(ch, cfg, p))
+			continue
+		}
 		alphabet := []int{0, 0, 0, 1, 1, 1, 2, 2, 3, 4, 4, 5, 6, 7, 20, 20, 21}
 		if cfg.weights != nil {
 			alphabet = append(append([]int{}, cfg.weights...), 20, 20, 21)
@@ -226,7 +230,7 @@ func TestC10FEP(t *testing.T) {
 		ch := choose.Rapid{T: rt}
 		nc := genNodeCfg(ch)
 		nc.RequireBridge = false
-		cfg := walkCfg{node: nc, steps: rapid.IntRange(8, 30).Draw(rt, "steps"), viaGRPC: true}
+		cfg := walkCfg{node: nc, steps: rapid.IntRange(8, 30).Draw(rt, "steps"), viaGRPC: true, rotate: rapid.Bool().Draw(rt, "keyRotations")}
 		r, _, err := fepWalk(ch, cfg)
 		if err != nil {
 			fatal(rt, "INCONCLUSIVE: %v", err)
@@ -241,7 +245,7 @@ func TestC10FEP(t *testing.T) {
 			}
 			commit := wireFEPCommitment(sub)
 			pub, e := cryptoSigToAddr(commit, gen.GetSignature().GetValue())
-			if e != nil || pub != verifSignerAddr {
+			if e != nil || pub != sub.Signer {
 				rt.Fatalf("%s: the signature on the wire is not the configured signer's signature over the FEP commitment recomputed from the wire message\n  schedule: %s", desc, r.key())
 			}
 			if d := wireVsMem(sub.Wire, sub.InMem); d != "" {
@@ -261,6 +265,9 @@ func TestC10FEP(t *testing.T) {
 			nt := len(sub.InMem.BridgeExits) >= 1 && len(sub.InMem.ImportedBridgeExits) >= 1
 			rec.Case(nt, fmt.Sprintf("fep|%+v|%s|%d", cfg.node, r.key(), k))
 			rec.Class("fep_certificates")
+			if sub.Signer != verifSignerAddr {
+				rec.Class("fep_certificates_signed_after_a_key_rotation")
+			}
 		}
 		if v := r.m.firstViolation("C10"); v != nil {
 			rt.Fatalf("[FEP] %s\n  schedule: %s", v.Msg, r.key())
